@@ -1,10 +1,10 @@
 /-
 C03 (link Impl → Spec): the gm-sm2 protocol models compute what GB/T 32918.2 says.
 * `compute_za_refines`: ZA.
-* verification: `verify_raw_complete` (everything the standard accepts is accepted), `verify_raw_refines_partial` (the exact set
-  of accepted signatures: the standard's, PLUS those with [s]G + [t]P = O and r = e mod n — the model reads x₁ = 0 off the
-  point at infinity instead of rejecting, B5/B6 of §7.1), `verify_raw_sound` (equivalence away from that corner), and
-  `verify_raw_refines_counterexample` (the corner is inhabited: the `↔` with `Spec.SM2.verify` alone is FALSE).
+* verification: `verify_raw_refines` (for every valid representation of the public key, every 32-byte digest and 64-byte
+  signature the model accepts exactly when the standard's verifier does — after the fix of key.rs the model rejects a
+  signature with [s]G + [t]P = O as B5/B6 of §7.1 require), its two directions `verify_raw_complete` / `verify_raw_sound`,
+  and the regression `cx_now_rejected` (the input the unfixed code accepted against the standard is rejected by both).
 * signing with a given nonce: `sign_raw_refines` (same (r, s) as the standard for every d ∈ [1, n−2], every digest, every
   k ∈ [1, n−1]), `sign_raw_retry` (on "return to A3" the model takes the next candidate).
 * `sign_then_verify_impl`: what the model signs, the model verifies and the standard's verifier accepts.
@@ -46,36 +46,36 @@ theorem verify_raw_complete (digest sig : List UInt8) (P : Impl.SM2.Point) (hP :
     Impl.SM2.verify_raw digest P sig = .ok () :=
   Proofs.SM2Protocol.verify_raw_complete digest sig P hP hd hs h
 
-/-- THE GIVEN STATEMENT `verify_raw_refines` (model accepts ↔ standard accepts) IS FALSE; this is the strongest true
-variant: the model accepts exactly the standard's signatures plus those for which [s]G + [t]P is the point at infinity and
-r = e mod n (GB/T 32918.2 §7.1 B5–B7 compute x₁ of a finite point; the model reads x₁ = 0 off the point at infinity) -/
-theorem verify_raw_refines_partial (digest sig : List UInt8) (P : Impl.SM2.Point) (hP : Valid P)
-    (hd : digest.length = 32) (hs : sig.length = 64) :
+/-- the model accepts exactly what the standard's verifier accepts (GB/T 32918.2 §7.1 B1–B7), for every valid
+representation of the public key -/
+theorem verify_raw_refines (digest sig : List UInt8) (P : Impl.SM2.Point) (hP : Valid P) (hd : digest.length = 32)
+    (hs : sig.length = 64) :
     (Impl.SM2.verify_raw digest P sig = .ok ()) ↔
-      (Spec.SM2.verify (toSpec P) (beNat digest) (beNat (sig.take 32)) (beNat (sig.drop 32)) = true
-        ∨ (1 ≤ beNat (sig.take 32) ∧ beNat (sig.take 32) < Spec.SM2.n
-            ∧ 1 ≤ beNat (sig.drop 32) ∧ beNat (sig.drop 32) < Spec.SM2.n
-            ∧ (beNat (sig.take 32) + beNat (sig.drop 32)) % Spec.SM2.n ≠ 0
-            ∧ Spec.EC.add Spec.SM2.curve (Spec.EC.mul Spec.SM2.curve (beNat (sig.drop 32)) Spec.SM2.G)
-                (Spec.EC.mul Spec.SM2.curve ((beNat (sig.take 32) + beNat (sig.drop 32)) % Spec.SM2.n) (toSpec P)) = none
-            ∧ beNat digest % Spec.SM2.n = beNat (sig.take 32))) :=
-  Proofs.SM2Protocol.verify_raw_iff digest sig P hP hd hs
+      Spec.SM2.verify (toSpec P) (beNat digest) (beNat (sig.take 32)) (beNat (sig.drop 32)) = true :=
+  Proofs.SM2Protocol.verify_raw_refines digest sig P hP hd hs
 
-/-- soundness away from the corner -/
+/-- soundness: everything the model accepts is accepted by the standard's verifier -/
 theorem verify_raw_sound (digest sig : List UInt8) (P : Impl.SM2.Point) (hP : Valid P) (hd : digest.length = 32)
-    (hs : sig.length = 64) (h : Impl.SM2.verify_raw digest P sig = .ok ())
-    (hne : Spec.EC.add Spec.SM2.curve (Spec.EC.mul Spec.SM2.curve (beNat (sig.drop 32)) Spec.SM2.G)
-      (Spec.EC.mul Spec.SM2.curve ((beNat (sig.take 32) + beNat (sig.drop 32)) % Spec.SM2.n) (toSpec P)) ≠ none) :
+    (hs : sig.length = 64) (h : Impl.SM2.verify_raw digest P sig = .ok ()) :
     Spec.SM2.verify (toSpec P) (beNat digest) (beNat (sig.take 32)) (beNat (sig.drop 32)) = true :=
-  Proofs.SM2Protocol.verify_raw_sound digest sig P hP hd hs h hne
+  Proofs.SM2Protocol.verify_raw_sound digest sig P hP hd hs h
 
-/-- the counterexample: public key G (d = 1), digest e = 1, r = 1, s = (n−1)/2, so t = (n+1)/2 and [s]G + [t]G = [n]G = O -/
+/-- the counterexample to the refinement before the fix of key.rs: public key G (d = 1), digest e = 1, r = 1,
+s = (n−1)/2, so t = (n+1)/2 and [s]G + [t]G = [n]G = O; the unfixed code read x₁ = 0 off the point at infinity and
+accepted since r = e mod n -/
 def cxDigest : List UInt8 := natBE 32 1
 def cxSig : List UInt8 := natBE 32 1 ++ natBE 32 ((Spec.SM2.n - 1) / 2)
 
-theorem cx_model_accepts : Impl.SM2.verify_raw cxDigest G1 cxSig = .ok () := by decide +kernel
-
-theorem cx_spec_rejects : Spec.SM2.verify Spec.SM2.G 1 1 ((Spec.SM2.n - 1) / 2) = false := by
+/-- regression: that input is now rejected by the model (evaluated in the kernel) and by the standard's verifier (by the
+group law: [s]G + [t]G = [n]G = O, independently of the model) -/
+theorem cx_now_rejected :
+    (∃ e, Impl.SM2.verify_raw cxDigest G1 cxSig = .err e)
+      ∧ Spec.SM2.verify (toSpec G1) (beNat cxDigest) (beNat (cxSig.take 32)) (beNat (cxSig.drop 32)) = false := by
+  refine ⟨⟨"InvalidDigest", by decide +kernel⟩, ?_⟩
+  have e1 : beNat cxDigest = 1 := by decide +kernel
+  have e2 : beNat (cxSig.take 32) = 1 := by decide +kernel
+  have e3 : beNat (cxSig.drop 32) = (Spec.SM2.n - 1) / 2 := by decide +kernel
+  rw [Thm.C11.G1_toSpec, e1, e2, e3]
   cases h : Spec.SM2.verify Spec.SM2.G 1 1 ((Spec.SM2.n - 1) / 2) with
   | false => rfl
   | true =>
@@ -85,16 +85,8 @@ theorem cx_spec_rejects : Spec.SM2.verify Spec.SM2.G 1 1 ((Spec.SM2.n - 1) / 2) 
     rw [ht, ← Proofs.SM2Algebra.sm2_mul_add Proofs.SM2Scalar.p_prime, hn, Thm.SpecSM2.sm2_nG] at hadd
     cases hadd
 
-theorem verify_raw_refines_counterexample :
-    ∃ (digest sig : List UInt8) (P : Impl.SM2.Point), Valid P ∧ digest.length = 32 ∧ sig.length = 64
-      ∧ Impl.SM2.verify_raw digest P sig = .ok ()
-      ∧ Spec.SM2.verify (toSpec P) (beNat digest) (beNat (sig.take 32)) (beNat (sig.drop 32)) = false := by
-  refine ⟨cxDigest, cxSig, G1, Thm.C11.G1_valid, by decide, by decide, cx_model_accepts, ?_⟩
-  have e1 : beNat cxDigest = 1 := by decide +kernel
-  have e2 : beNat (cxSig.take 32) = 1 := by decide +kernel
-  have e3 : beNat (cxSig.drop 32) = (Spec.SM2.n - 1) / 2 := by decide +kernel
-  rw [Thm.C11.G1_toSpec, e1, e2, e3]
-  exact cx_spec_rejects
+/-- the hypotheses of `verify_raw_refines` hold for that input, so both sides of the `↔` are false there -/
+example : Valid G1 ∧ cxDigest.length = 32 ∧ cxSig.length = 64 := ⟨Thm.C11.G1_valid, by decide, by decide⟩
 
 /-- non-vacuity of the positive direction: the Annex A signature is accepted by the model under a Z ≠ 1 representation of
 the Annex A public key -/
@@ -110,6 +102,16 @@ example : Impl.SM2.verify_raw (natBE 32 exE) (G2.scalar_mul exD) (natBE 32 exR +
 /-- and a wrong signature is rejected by the model -/
 example : Impl.SM2.verify_raw (natBE 32 exE) G1 (natBE 32 exR ++ natBE 32 exS) = .err "InvalidDigest" := by
   decide +kernel
+/-- non-vacuity of the other direction: the model accepts the Annex A signature (evaluated in the kernel), hence so does
+the standard's verifier -/
+example : Spec.SM2.verify (toSpec (Impl.SM2.g_mul exD)) (beNat (natBE 32 exE))
+    (beNat ((natBE 32 exR ++ natBE 32 exS).take 32)) (beNat ((natBE 32 exR ++ natBE 32 exS).drop 32)) = true :=
+  verify_raw_sound _ _ _ (Thm.C11.g_mul_correct exD (by decide)).1 (by decide) (by decide) (by decide +kernel)
+/-- and the `↔` transports the rejection: under the wrong public key G the standard's verifier rejects too -/
+example : Spec.SM2.verify (toSpec G1) (beNat (natBE 32 exE))
+    (beNat ((natBE 32 exR ++ natBE 32 exS).take 32)) (beNat ((natBE 32 exR ++ natBE 32 exS).drop 32)) ≠ true :=
+  fun h => nomatch ((verify_raw_refines _ _ _ Thm.C11.G1_valid (by decide) (by decide)).mpr h).symm.trans
+    (show Impl.SM2.verify_raw (natBE 32 exE) G1 (natBE 32 exR ++ natBE 32 exS) = .err "InvalidDigest" by decide +kernel)
 
 /-! ## signing -/
 
